@@ -11,6 +11,8 @@ structure St where
   /-- version-clock shards: keys of one shard share a clock (the shard of a key is reported by
   the implementation on every line) -/
   clocks : List (String × Nat) := []
+  /-- `size_of::<Record>()`, reported by the harness: the fixed part of a record's footprint -/
+  recSize : Nat := 0
 
 /-- program points the real code reaches a scheduling point before: every step that is not the
 first of its call (and `incrRead`, whose loop head carries the point) -/
@@ -91,6 +93,21 @@ def accepted : Resp → Bool
   | .created | .updated | .swapped | .counter _ | .patched => true
   | _ => false
 
+/-- length of a value's bytes in the harness encoding -/
+def valueLen (v : V) : Nat :=
+  match v.kind with
+  | .raw => 11                                   -- "raw:" ++ sign ++ six digits
+  | .num => 8
+  | .json => 8 + (toString v.n).length           -- {"num":<n>}
+
+/-- what `memory_usage()` / `len()` must be when no call is inside a guarded step: the footprints of
+the keys that are present -/
+def footprint (st : List (String × Sys)) (recSize : Nat) : Nat × Nat :=
+  st.foldl (fun acc ks =>
+    match abs ks.2.sh with
+    | some e => (acc.1 + recSize + ks.1.length / 2 + valueLen e.v, acc.2 + 1)
+    | none => acc) (0, 0)
+
 def answer (s : Sys) (r : Option Event) : String :=
   let clock := s!" clock={s.sh.clock}"
   match r with
@@ -100,27 +117,44 @@ def answer (s : Sys) (r : Option Event) : String :=
     "ret " ++ respStr e.resp ++ ts ++ clock ++ how
   | none => "at" ++ clock
 
+def rsOf (rest : List String) : Nat :=
+  (rest.findSome? fun a => if a.startsWith "rs=" then (a.drop 3).toString.toNat? else none).getD 0
+
+/-- the answer line: the thread's outcome, the key's clock, and the store-wide accounting -/
+def line (st : St) (key : String) (r : Option Event) : String :=
+  let s := (st.keys.lookup key).getD (Sys.init st.n)
+  let (m, n) := footprint st.keys st.recSize
+  let a := answer s r
+  -- keep the outcome-kind marker last
+  match a.splitOn " #" with
+  | [body, how] => s!"{body} mem={m} n={n} #{how}"
+  | _ => s!"{a} mem={m} n={n}"
+
 def handle (st : St) (args : List String) : Option (St × String) :=
   match args with
-  | "new" :: n :: wall :: _ => do
+  | "new" :: n :: wall :: rest => do
     let n ← n.toNat?; let wall ← wall.toNat?
-    pure ({ n := n, wall := wall, keys := [], clocks := [] }, "ok")
+    pure ({ n := n, wall := wall, keys := [], clocks := [], recSize := rsOf rest }, "ok")
   | "call" :: tid :: key :: shard :: op => do
     let tid ← tid.toNat?
     let pc0 ← parseOp (op.filter (· != "bytes"))
     let s := sysOf st key shard
     if pcOf s tid != .idle then none else
     let s1 := s.act (.call tid pc0)
-    if isYield pc0 then pure (putSys st key shard s1, answer s1 none)
+    if isYield pc0 then
+      let st' := putSys st key shard s1
+      pure (st', line st' key none)
     else
       let (s2, r) := advance st.wall tid 8 s1
-      pure (putSys st key shard s2, answer s2 r)
+      let st' := putSys st key shard s2
+      pure (st', line st' key r)
   | ["run", tid, key, shard] => do
     let tid ← tid.toNat?
     let s := sysOf st key shard
     if pcOf s tid == .idle then none else
     let (s2, r) := advance st.wall tid 8 s
-    pure (putSys st key shard s2, answer s2 r)
+    let st' := putSys st key shard s2
+    pure (st', line st' key r)
   | _ => none
 
 end Feox.Drv.ConcDrv
